@@ -76,7 +76,7 @@ def gen_case(rng, tier, ci):
     if r < 0.55: lgm = rng.choice([3, 3, 4, 4, 5])
     elif r < 0.9: lgm = rng.choice([5, 6, 7, 8])
     elif r < 0.95: lgm = rng.choice([0, 1, 2])
-    else: lgm = rng.choice([9, 10, 11]) if tier != 'quick' or ci % 3 == 0 else 8
+    else: lgm = (rng.choice([9, 10, 11]) if tier != 'quick' else rng.choice([9, 10])) if ci % 3 == 0 or tier != 'quick' else 8
     nreg = rng.choice([1, 2, 2, 3, 4])
     regs = []
     for q in range(nreg):
@@ -95,7 +95,7 @@ def gen_case(rng, tier, ci):
     streams = []; total_n = 0
     for q in range(nreg):
         cap = cap_of(regs[q])
-        style = rng.choice(['skewed', 'uniform', 'adversarial', 'adversarial', 'heavy'])
+        style = rng.choice(['skewed', 'skewed', 'skewed', 'uniform', 'uniform', 'uniform', 'heavy', 'heavy', 'adversarial', 'adversarial'])
         scale = rng.choice([0.5, 1.5, 3, 5]) if tier == 'quick' else rng.choice([0.5, 1.5, 3, 5, 10])
         n = int(cap * scale) + rng.randrange(0, 8)
         n = min(n, 900 if tier == 'quick' else 4000)
@@ -111,12 +111,19 @@ def gen_case(rng, tier, ci):
     def query(q, idx):
         ops.append([3, q, 0] + mk_item(kind, idx))
 
+    small_thr = rng.random() < 0.3            # explicit thresholds that may lie below the maximum error
+
     def freq(q):
         et = rng.choice([0, 1])
         if rng.random() < 0.45:
             ops.append([6, q, et, 0, 0])
-        else:
+        elif small_thr or et == 0:
             thr = rng.choice([0, 0, 1, 2, 3, 5, 10, 100, 1000, max(1, sum(pos)) // rng.choice([2, 4, 8, 16, 64]), big])
+            ops.append([6, q, et, 1, thr])
+        else:
+            # at least the a-priori error of the smallest map in the case, hence >= the maximum error
+            wsum = sum(w for st in streams for _, w in st) * (2 ** nm if nm < 8 else 256) + 1
+            thr = rng.choice([wsum, wsum // 2, wsum // 3])
             ops.append([6, q, et, 1, thr])
 
     live = [q for q in range(nreg) if streams[q]]
@@ -181,9 +188,24 @@ def gen_case(rng, tier, ci):
     query(a, 10**6)
     return dict(id='fi%d' % ci, ops=ops, tags=sorted(tags))
 
+def fixed_cases():
+    """minimal histories of the known findings (so that they are reported on every run) and two plain sanity cases"""
+    wipe = [[1, 0, 0, 3, 3]] + [[2, 0, 1, i] for i in range(7)]
+    c0 = wipe + [[5, 0], [3, 0, 0, 0], [6, 0, 1, 1, 0], [6, 0, 1, 0, 0], [6, 0, 0, 1, 0]]
+    c1 = wipe + [[1, 1, 0, 3, 3], [2, 1, 5, 100], [4, 1, 0], [3, 1, 0, 0], [3, 1, 0, 100], [5, 1]]
+    c2 = wipe + [[7, 0, 2], [3, 2, 0, 0], [5, 2], [17, 0, 3], [5, 3]]
+    c3 = [[1, 0, 0, 8, 3], [1, 1, 0, 3, 3]] + [[2, 1, 1 + i % 3, i % 10] for i in range(70)] + [[5, 1], [4, 0, 1], [5, 0], [3, 0, 0, 3]]
+    c4 = [[1, 0, 2, 4, 3]] + [[2, 0, 1 + (i * 7) % 5] + mk_item(2, (i * i) % 23) for i in range(120)] + \
+         [[5, 0], [6, 0, 0, 0, 0], [6, 0, 1, 0, 0]] + [[3, 0, 0] + mk_item(2, i) for i in range(24)]
+    c5 = [[1, 0, 1, 3, 3], [1, 1, 1, 5, 3]] + [[2, i % 2, 1 + i % 4, (i * 5) % 31] for i in range(150)] + \
+         [[4, 0, 1], [5, 0], [14, 1, 0], [5, 1], [4, 1, 1], [5, 1], [6, 1, 1, 0, 0], [6, 1, 0, 0, 0]] + [[3, 1, 0, i] for i in range(31)]
+    tags = [['finding-nfn-threshold'], ['finding-merge-purged-empty'], ['finding-roundtrip-purged-empty'], ['finding-eps-mixed-sizes'],
+            ['fixed-strings'], ['fixed-cluster-merge']]
+    return [dict(id='fx%d' % i, ops=c, tags=tags[i]) for i, c in enumerate([c0, c1, c2, c3, c4, c5])]
+
 def gen(rng, tier):
     n = 140 if tier == 'quick' else 1500
-    return [gen_case(rng, tier, ci) for ci in range(n)]
+    return fixed_cases() + [gen_case(rng, tier, ci) for ci in range(n)]
 
 # ---------------------------------------------------------------------------------------------
 # oracle: the property predicates on the implementation's outputs against the spec's ground truth
